@@ -36,12 +36,14 @@ var methodShapes = []shape{
 	{"s1[a]|s2[b]", []scen.Sec{sec("s1", "a"), sec("s2", "b")}},
 	{"s1[a]|s2[b]|s1[]", []scen.Sec{sec("s1", "a"), sec("s2", "b"), sec("s1")}},
 	{"s2[a,b]", []scen.Sec{sec("s2", "a", "b")}},
+	{"s1(no properties)", []scen.Sec{{Scheme: "s1", Scopes: []string{}, NoProps: true}}},
 }
 
 var ctlShapes = []shape{
 	{"none", nil},
 	{"s1[c]", []scen.Sec{sec("s1", "c")}},
 	{"s2[c]|s1[d]", []scen.Sec{sec("s2", "c"), sec("s1", "d")}},
+	{"s2(no properties)", []scen.Sec{{Scheme: "s2", Scopes: []string{}, NoProps: true}}},
 }
 
 func effective(m, c []scen.Sec, def *scen.Sec) []scen.Sec {
